@@ -81,27 +81,31 @@ Definition start_actx (f : option bool) (a : actx) : Prop :=
   | Some _ => a = ATry \/ a = APoll false
   end.
 
-Lemma dispatch_inv s t p s' e :
-  dispatch s t p = Some (s', e) ->
+Lemma dispatch_inv s t c p s' e :
+  dispatch s t c p = Some (s', e) ->
   exists p',
-    (fut s t <> None /\ do_llswap (set_prog s t p') t LDrop = Some (s', e)) \/
+    ((fut s t <> None /\ do_llswap (set_prog s t p') t LDrop = Some (s', e)) \/
+     (fut s t <> None /\ do_wait (set_prog s t p') t c = Some (s', e))) \/
     (exists a, start_actx (fut s t) a /\ do_taload (set_prog s t p') t a = Some (s', e)).
 Proof.
   revert s. induction p as [|o r IH]; intros s H; cbn [dispatch] in H.
-  - destruct (fut s t) eqn:F; [|discriminate]. exists []. left. split; [congruence|exact H].
+  - destruct (fut s t) eqn:F; [|discriminate]. exists []. left. left. split; [congruence|exact H].
   - destruct o.
     + destruct (fut s t) eqn:F.
-      * exists (OLock :: r). left. split; [congruence|exact H].
+      * exists (OLock :: r). left. left. split; [congruence|exact H].
       * exists r. right. exists ALock. split; [cbn; auto|exact H].
     + exists r. right. exists ATry. split; [|exact H]. destruct (fut s t); cbn; auto.
     + destruct (fut s t) eqn:F.
-      * exists (OAsync :: r). left. split; [congruence|exact H].
+      * exists (OAsync :: r). left. left. split; [congruence|exact H].
       * exists r. right. exists (AFirst true). split; [cbn; auto|exact H].
     + destruct (fut s t) eqn:F.
       * exists r. right. exists (APoll false). split; [cbn; auto|exact H].
       * exists r. right. exists (AFirst false). split; [cbn; auto 6|exact H].
     + destruct (fut s t) eqn:F.
-      * exists r. left. split; [congruence|exact H].
+      * exists r. left. left. split; [congruence|exact H].
+      * apply IH in H. rewrite F in H. exact H.
+    + destruct (fut s t) eqn:F.
+      * exists r. left. right. split; [congruence|exact H].
       * apply IH in H. rewrite F in H. exact H.
 Qed.
 
@@ -127,13 +131,13 @@ Ltac step_cases H :=
     let y := fresh "v" in remember (pcs s t) as y eqn:Epc in H; symmetry in Epc; destruct y end;
   [ apply dispatch_inv in H;
     let p' := fresh "p'" in let a := fresh "a" in let Ha := fresh "Ha" in let Hf := fresh "Hf" in
-    destruct H as [p' [[Hf H]|[a [Ha H]]]];
-    [ | unfold start_actx in Ha;
+    destruct H as [p' [[[Hf H]|[Hf H]]|[a [Ha H]]]];
+    [ | | unfold start_actx in Ha;
         match type of Ha with context [fut ?s ?t] =>
           let y := fresh "v" in remember (fut s t) as y eqn:Ef in Ha; symmetry in Ef; destruct y end;
         repeat match type of Ha with _ \/ _ => destruct Ha as [Ha|Ha] end; subst a ]
   | .. ];
-  unfold do_taload, do_llswap, after_llock, ret, block_next, fix_flags in H;
+  unfold do_taload, do_llswap, do_wait, after_llock, ret, block_next, fix_flags in H;
   fsimpl; cbv beta iota zeta in H;
   repeat (break_match H; fsimpl; cbv beta iota zeta in H);
   try discriminate H;
